@@ -1,0 +1,21 @@
+//go:build verif
+
+package noresponse
+
+import "github.com/plgd-dev/go-coap/v3/message/codes"
+
+// Read-only exports for the verification harness (build tag verif only).
+
+// VerifValueMap returns a copy of the bit-value -> suppressed codes table.
+func VerifValueMap() map[uint32][]codes.Code {
+	out := make(map[uint32][]codes.Code, len(noResponseValueMap))
+	for k, v := range noResponseValueMap {
+		out[k] = append([]codes.Code(nil), v...)
+	}
+	return out
+}
+
+// VerifDecode exposes decodeNoResponseOption.
+func VerifDecode(v uint32) []codes.Code {
+	return decodeNoResponseOption(v)
+}
